@@ -7,7 +7,7 @@ CONSTANTS
   RepackUnlinkOldFirst = FALSE
   SeekBackWithoutTruncate = FALSE
   RepackNoIntermediateCommit = FALSE
-  ImportFsyncOnlyLast = FALSE
+  ImportFsyncOnlyLast = TRUE
   DeleteIndexFirst = FALSE
 INVARIANT Recoverable
 INVARIANT KeysUnique
